@@ -92,7 +92,8 @@ def _d(seed, label):
     return int.from_bytes(hashlib.sha256(b"c19/%d/%s" % (seed, label.encode())).digest(), "big") % (M.N - 2) + 1
 
 
-OPS = ["sm2_keygen", "sm2_sign", "sm2_sign_ctx", "sm2_decrypt", "sm2_decrypt_bad", "sm2_ecdh", "sm2_import_der", "sm2_import_bad", "sm2_import_mismatch", "pem_key_damaged", "pem_key_damaged", "tls_ctx_keys", "tls_ctx_keys", "hex_key_bad", "tlcp_cke_badlen", "tlcp_cke_badlen",
+OPS = ["sm2_keygen", "sm2_sign", "sm2_sign_ctx", "sm2_decrypt", "sm2_decrypt_bad", "sm2_ecdh", "sm2_import_der", "sm2_import_bad", "sm2_import_mismatch", "pem_key_damaged", "pem_key_damaged",
+       "cms_open_0", "cms_open_1", "cms_open_2", "cms_open_3", "cms_open_4", "cms_open_5", "cms_open_6", "cms_open_6", "cms_open_7", "tls_ctx_keys", "tls_ctx_keys", "hex_key_bad", "tlcp_cke_badlen", "tlcp_cke_badlen",
        "pkcs8_open", "pkcs8_wrong_password", "sm9_sign", "sm9_decrypt", "sm9_keygen",
        "hs_tlcp", "hs_tls12", "hs_tls13", "hs_tlcp_mutual", "hs_tls12_mutual", "hs_tls13_mutual",
        "hs_tlcp_untrusted", "hs_tls12_untrusted", "hs_tls13_untrusted", "hs_tls12_badclient",
@@ -256,7 +257,7 @@ def _handshake(ctx, proto, mutual, defect, seed, secrets):
         s.finish()
 
 
-@P.sub("ops", case_s, quick=600, thorough=23000, chunk=40)
+@P.sub("ops", case_s, quick=720, thorough=26000, chunk=40)
 def ops(case, ctx):
     """one catalogue operation with fd 1/2 captured; output scanned for every known secret"""
     l = lib(ctx.variant)
@@ -384,6 +385,43 @@ def ops(case, ctx):
                     dll.vh_fclose(fp)
                     os.unlink(path)
                     ctx.note("damaged-pem-" + ("imported" if r == 1 else "refused"))
+                elif op.startswith("cms_open_"):
+                    # opening CMS messages (EncryptedData, EnvelopedData, SignedAndEnvelopedData): success, wrong key / wrong recipient, damaged
+                    # ciphertext, damaged signature - the content, the content-encryption key and the private keys must stay off the channels
+                    from vlib import cmslib as CL
+                    sh.reset()
+                    sh.freeze_time(pki.T0)
+                    scen = int(op[-1])
+                    content = hashlib.shake_128(b"c19 cms content %d" % seed).digest(40 + case["n"])
+                    cek = hashlib.shake_128(b"c19 cms cek %d" % seed).digest(16)
+                    iv = hashlib.shake_128(b"c19 cms iv %d" % seed).digest(16)
+                    rd_, sd_, od_ = _d(seed, "cms-rcpt"), _d(seed, "cms-signer"), _d(seed, "cms-outsider")
+                    rcert = CL.party_cert("c19 rcpt %d" % seed, "C19 CA", 0x100 + (seed & 0xFF), rd_)
+                    scert = CL.party_cert("c19 signer %d" % seed, "C19 CA", 0x200 + (seed & 0xFF), sd_)
+                    ocert = CL.party_cert("c19 outsider %d" % seed, "C19 CA", 0x300 + (seed & 0xFF), od_)
+                    secrets = {"cms content": content, "cms content-encryption key": cek, "recipient private key": M.i2b(rd_), "signer private key": M.i2b(sd_)}
+                    ctype = const("OID_cms_data")
+                    msg_ = None
+                    if scen in (0, 1):
+                        _r, msg_ = CL.encrypt(l, cek, iv, ctype, content, None, None)
+                        key_ = cek if scen == 0 else bytes(b ^ 0x5A for b in cek)
+                        assert msg_ is not None, "cms_encrypt failed"
+                        r, _o = CL.decrypt(l, msg_, key_)
+                    elif scen in (2, 3, 4):
+                        _r, msg_ = CL.envelop(l, [rcert], cek, iv, ctype, content, None, None, seed + 1)
+                        if scen == 4:
+                            b_ = bytearray(msg_); b_[-1 - (seed >> 3) % 16] ^= 1 << ((seed >> 7) & 7); msg_ = bytes(b_)
+                        who = (rd_, rcert) if scen != 3 else (od_, ocert)
+                        secrets["outsider private key"] = M.i2b(od_)
+                        r, _o = CL.deenvelop(l, msg_, key_in(who[0], M.pub_of(who[0])), who[1])
+                    else:
+                        _r, msg_ = CL.sign_and_envelop(l, [(scert, key_in(sd_, M.pub_of(sd_)))], [rcert], cek, iv, ctype, content, None, None, seed + 2)
+                        if scen == 6:
+                            b_ = bytearray(msg_); b_[-1 - (seed >> 3) % 24] ^= 1 << ((seed >> 8) & 7); msg_ = bytes(b_)
+                        who = (rd_, rcert) if scen != 7 else (od_, ocert)
+                        secrets["outsider private key"] = M.i2b(od_)
+                        r, _o = CL.deenvelop_and_verify(l, msg_, key_in(who[0], M.pub_of(who[0])), who[1])
+                    ctx.note("cms-open-scenario-%d-%s" % (scen, "opened" if r == 1 else "refused"))
                 elif op == "tlcp_cke_badlen":
                     # a TLCP client (scripted, vlib/peer12.py) whose ClientKeyExchange wraps a value that is not 48 bytes long under the server's
                     # encryption certificate: the server decrypts it with its private key before it can refuse it
